@@ -439,7 +439,7 @@ func cmdCheck(args []string) int {
 		"states": paths, "transitions": steps, "traces_validated_against_impl": validated, "samples": samples,
 		"obligations": obligations, "discharged": discharged, "undischarged": undis, "unproved_paths": unproved,
 		"unwinding_failures": unwind, "engine_errors": engErr, "spurious_models": spurious, "native_mismatches": mismatches, "mismatch_samples": mismatchSamples,
-		"solver_queries": queries, "solver_time_s": round1(solverS), "solver": "z3 4.8.12 (-in, QF_BV terms over push/pop)",
+		"solver_queries": queries, "solver_time_s": round1(solverS), "solver": solverKind() + " (-in, incremental QF_BV over push/pop; z3-new = z3 5.1.0, z3 = 4.8.12)",
 		"cross_solver":                   map[string]interface{}{"solvers": cfg.Cross, "assertion_vcs_rechecked": crossN, "disagreements": crossDis, "unknown": crossUnk},
 		"paths_reaching_final_assertion": reached, "paths_pruned_infeasible": pruned,
 		"functions_encoded": topFuncs(funcs, 0), "harnesses": harnessRows, "known_findings_hit": knownHit,
